@@ -185,7 +185,9 @@ pub fn backend_digest(seed: u64, n: u32) -> String {
     format!("{acc:016x} files={files}")
 }
 
-const OTHER_BACKEND: &str = "/verif/target-crc/verif/e57check";
+fn other_backend() -> String {
+    crate::kit::verif_root().join("target-crc/verif/e57check").display().to_string()
+}
 
 impl Check for C07 {
     type Case = Case;
@@ -256,7 +258,7 @@ impl Check for C07 {
         match case {
             Case::Backends { seed, n } => {
                 let mine = backend_digest(*seed, *n);
-                match std::process::Command::new(OTHER_BACKEND).args(["c07-digest", &seed.to_string(), &n.to_string()]).output() {
+                match std::process::Command::new(other_backend()).args(["c07-digest", &seed.to_string(), &n.to_string()]).output() {
                     Ok(o) if o.status.success() => {
                         let other = String::from_utf8_lossy(&o.stdout).trim().to_string();
                         v.nt("backend_differential");
@@ -266,7 +268,7 @@ impl Check for C07 {
                         }
                     }
                     Ok(o) => v.infra(format!("crc32c-feature binary failed: {}", String::from_utf8_lossy(&o.stderr))),
-                    Err(e) => v.infra(format!("cannot run {OTHER_BACKEND} (built by bin/check C07): {e}")),
+                    Err(e) => v.infra(format!("cannot run {} (built by bin/check C07): {e}", other_backend())),
                 }
             }
             Case::PageSize { page_size, xml_len, flips } => {
@@ -366,7 +368,7 @@ impl Check for C07 {
     }
     fn extra_coverage() -> BTreeMap<String, serde_json::Value> {
         let mut m = BTreeMap::new();
-        m.insert("other_backend_binary".into(), OTHER_BACKEND.into());
+        m.insert("other_backend_binary".into(), other_backend().into());
         m
     }
 }
